@@ -425,7 +425,7 @@ pub fn make_inputs(cfg: &Cfg, rng: &mut Rng, tier: Tier, budget: usize, sentence
     out
 }
 
-const FLAVOURS: [&str; 6] = ["lazy counting struct", "Vec", "iter::from_fn", "lazy counting struct that is not fused (40 further tokens behind the None)", "endless lazy source with size hint (usize::MAX, None)", "lazy source that calls parse itself (re-entrant) half-way through"];
+const FLAVOURS: [&str; 8] = ["lazy counting struct", "Vec", "iter::from_fn", "lazy counting struct that is not fused (40 further tokens behind the None)", "endless lazy source with size hint (usize::MAX, None)", "lazy source that calls parse itself (re-entrant) half-way through", "four threads parsing the same input at the same time", "the same input parsed 70 000 times in a row"];
 
 #[derive(Debug, Clone, PartialEq, Eq)]
 enum Expect {
@@ -566,6 +566,7 @@ impl EmitRun {
         // (Vec or from_fn, pseudo-random payloads)
         let mut lines: Vec<String> = vec![];
         let mut meta: Vec<(usize, usize, usize)> = vec![]; // (input index, flavour, scheme)
+        let mut many_calls = 0;
         for (i, (word, _)) in inputs.iter().enumerate() {
             let ks = word.iter().map(|k| k.to_string()).collect::<Vec<_>>().join(" ");
             lines.push(format!("0 0 {ks}"));
@@ -574,6 +575,13 @@ impl EmitRun {
             if i % 8 == 7 && matches!(lr::lr_parse(&r.ctx, &r.lr1, word, None), ParseOutcome::Reject(Some(_))) {
                 // must be rejected at one of its own tokens: the source may be endless behind them
                 fl = 4;
+            }
+            if i % 48 == 10 && word.len() <= 3000 {
+                fl = 6;
+            }
+            if word.len() <= 6 && many_calls < 2 && i % 5 == 1 {
+                many_calls += 1;
+                fl = 7;
             }
             lines.push(format!("{fl} 1 {ks}"));
             meta.push((i, fl, 1));
@@ -662,6 +670,15 @@ impl EmitRun {
             let input_desc = || json!({"grammar_src": c.src, "token_kinds": word, "token_names": word.iter().map(|k| c.model.terms[*k].name.clone()).collect::<Vec<_>>(),
                 "iterator_flavour": FLAVOURS[*flavour], "payload_scheme": scheme, "workload": wtag,
                 "expected": format!("{expect:?}"), "observed": crate::util::truncate(got, 2000)});
+            if kind == "DIFF" {
+                w.eval();
+                w.violation(
+                    "repeated-or-concurrent-parses-disagree",
+                    "the same input parsed again (concurrently, or later in the same process) got a different answer",
+                    json!({"grammar_src": c.src, "token_kinds": word, "iterator_flavour": FLAVOURS[*flavour], "observed": crate::util::truncate(got, 1500)}),
+                );
+                continue;
+            }
             let observed_ok = kind == "OK";
             if let Some(nested) = &got_nested {
                 // same input, same payload scheme: the nested call must answer exactly like the outer one
@@ -756,7 +773,7 @@ impl EmitRun {
                     }
                     w.eval();
                     w.count(&format!("workload:{wtag}"));
-                    w.count(&format!("iterator:{}", ["lazy-struct", "vec", "from_fn", "not-fused", "endless", "re-entrant"][*flavour]));
+                    w.count(&format!("iterator:{}", ["lazy-struct", "vec", "from_fn", "not-fused", "endless", "re-entrant", "four-threads", "70000-calls"][*flavour]));
                     match &expect {
                         Expect::ErrSome(i) => {
                             w.count("rejections:offending-token");
@@ -847,7 +864,7 @@ impl Engine for EmitRun {
         json!({"class": "generated-grammar", "grammar_src": c.src})
     }
     fn rule(&self, prop: &str) -> String {
-        let common = "grammars: the repository examples (structure only), the textbook corpus, combinator-built and random grammars, rendered with random fieldset styles / used-skipped masks and payload types from a pool of 12 (usize, String, user structs, Vec, Option, nested BTreeMap, unit, Option<Box<Vec>>, Vec<Option<Box<Rc>>>, pairs with equal argument lists under different callees); names: default, shuffled, confusable, emitter vocabulary, concatenation twins, the hostile pools of C05; each accepted grammar is compiled with rustc and run on: all strings up to a length bound (W1), random sentences (W2), a prefix-extension sweep p·t for every prefix p of short sentences and every terminal t (W3), 1-2 token edits (W4), long sentences up to 5000 tokens (W5, thorough); every input twice (lazy counting iterator + position payloads; Vec, iter::from_fn, a lazy iterator that is NOT fused - 40 tokens that are not part of the input follow the None -, a RE-ENTRANT source that calls parse itself on the same input half-way through (both answers must agree), or, for inputs rejected at one of their own tokens, an ENDLESS lazy source whose size hint is (usize::MAX, None) + pseudo-random payloads). One evaluation = one execution of the compiled parse()";
+        let common = "grammars: the repository examples (structure only), the textbook corpus, combinator-built and random grammars, rendered with random fieldset styles / used-skipped masks and payload types from a pool of 12 (usize, String, user structs, Vec, Option, nested BTreeMap, unit, Option<Box<Vec>>, Vec<Option<Box<Rc>>>, pairs with equal argument lists under different callees); names: default, shuffled, confusable, emitter vocabulary, concatenation twins, the hostile pools of C05; each accepted grammar is compiled with rustc and run on: all strings up to a length bound (W1), random sentences (W2), a prefix-extension sweep p·t for every prefix p of short sentences and every terminal t (W3), 1-2 token edits (W4), long sentences up to 5000 tokens (W5, thorough); every input twice (lazy counting iterator + position payloads; Vec, iter::from_fn, a lazy iterator that is NOT fused - 40 tokens that are not part of the input follow the None -, a RE-ENTRANT source that calls parse itself on the same input half-way through (both answers must agree), FOUR THREADS parsing the same input at the same time, the same short input parsed 70 000 TIMES in a row (all answers must be one answer), or, for inputs rejected at one of their own tokens, an ENDLESS lazy source whose size hint is (usize::MAX, None) + pseudo-random payloads). One evaluation = one execution of the compiled parse()";
         match prop {
             "C01" => format!("{common}; compared with membership decided by the canonical LR(1) reference parser, cross-checked by a definitional chart recogniser (<=40 tokens) and an Earley recogniser (<=120 tokens). Distinct non-trivial = distinct (grammar, token sequence) with >=2 productions and >=1 token."),
             "C02" => format!("{common}; for accepted inputs the {{:?}} rendering of the returned tree is compared with the rendering of the reference derivation (validated by a definitional derivation checker). Distinct non-trivial = distinct (grammar, sentence) whose tree has >=2 used leaves."),
